@@ -30,12 +30,17 @@ def top_factory(mode):
     return lambda c: layers.modes.TransparentProxy(c)
 
 
-def build_spec(rng, *, n=None, hostile_p=0.6, resp_hostile_p=0.5, allow_1xx=False, policy_kinds=("pass", "addh", "body", "delay"), force_valid=False):
+def build_spec(rng, *, n=None, hostile_p=0.6, resp_hostile_p=0.5, allow_1xx=False, policy_kinds=("pass", "addh", "body", "delay"), force_valid=False, streaming_p=0.0):
     mode = rng.choice(MODES)
     gmode = "regular" if mode == "regular" else "origin"
     n = n or rng.choice([1, 2, 2, 3, 4])
+    streaming = bool(streaming_p) and rng.random() < streaming_p
+    if streaming:
+        # streamed messages that end in an error are relayed up to a schedule-dependent point (a genuine race between the two
+        # directions, C03's subject): the streaming leg uses well-formed traffic, where every interleaving must give the same result
+        force_valid, resp_hostile_p = True, 0.0
     reqs = [gen.gen_request(rng, k, mode=gmode, hostile_p=hostile_p, force_valid=force_valid) for k in range(n)]
-    return {
+    spec = {
         "mode": mode,
         "reqs": reqs,
         "salt": rng.getrandbits(32),
@@ -43,6 +48,17 @@ def build_spec(rng, *, n=None, hostile_p=0.6, resp_hostile_p=0.5, allow_1xx=Fals
         "allow_1xx": allow_1xx,
         "policy_kinds": tuple(policy_kinds),
     }
+    if streaming:
+        # body streaming: option-driven (stream_large_bodies) and/or addon-driven (message.stream = True at the *headers hook,
+        # a pure function of the tag); early = the origin answers as soon as it has the request head (legal HTTP, e.g. 413).
+        spec["streaming"] = {
+            "stream_large_bodies": rng.choice([None, None, "1", "12"]),
+            "store_streamed_bodies": rng.random() < 0.5,
+            "req_p": rng.choice([0.0, 0.5, 1.0]),
+            "resp_p": rng.choice([0.0, 0.5, 1.0]),
+            "early": rng.random() < 0.6,
+        }
+    return spec
 
 
 def response_for(spec, tag, method):
@@ -67,7 +83,19 @@ def policy_action(spec, tag, hookname):
 def make_policy(spec, kinds_out):
     def policy(drv, hook):
         f = getattr(hook, "flow", None)
-        if f is None or not hasattr(f, "request") or hook.name not in ("request", "response"):
+        if f is None or not hasattr(f, "request"):
+            return None
+        st = spec.get("streaming")
+        if st and hook.name in ("requestheaders", "responseheaders"):
+            m = TAG.search(f.request.path.encode("latin-1", "replace"))
+            tag = m.group(0) if m else b"?"
+            _, r = policy_action(spec, tag, hook.name)
+            msg = f.request if hook.name == "requestheaders" else f.response
+            if msg is not None and r.random() < st["req_p" if hook.name == "requestheaders" else "resp_p"]:
+                msg.stream = True
+                kinds_out.add(f"{hook.name}:stream")
+            return "delay" if r.random() < 0.2 else None
+        if hook.name not in ("request", "response"):
             return None
         m = TAG.search(f.request.path.encode("latin-1", "replace"))
         tag = m.group(0) if m else b"?"
@@ -75,6 +103,10 @@ def make_policy(spec, kinds_out):
         msg = f.request if hook.name == "request" else f.response
         if msg is None:
             return None
+        if msg.stream:
+            # the message has been relayed already: edits now are too late to have any effect on the wire
+            kinds_out.add(f"{hook.name}:streamed")
+            return "delay" if a == "delay" else None
         if a == "addh":
             msg.headers.add("x-edit", "e%d" % r.randint(0, 99))
         elif a == "body":
@@ -119,6 +151,28 @@ def execute(spec, opts, rng, *, client_seg="whole", server_seg="whole", schedule
                 return v2
         return v
 
+    st = spec.get("streaming")
+    early_ok = None
+    if st and st["early"]:
+        def early_ok(k, hm):
+            m = TAG.search(hm["target"])
+            rs = response_for(spec, m.group(0) if m else b"unknown", hm["method"])
+            # an early answer that closes the connection makes the fate of the rest of the upload a genuine race
+            return not rs["close_after"] and rs["framing"] in ("cl", "chunked")
+    if st:
+        opts.update(stream_large_bodies=st["stream_large_bodies"], store_streamed_bodies=st["store_streamed_bodies"])
+    try:
+        return _execute(spec, opts, rng, client_seg, server_seg, schedule, policy, m3, open_plan, max_steps, client_cut, server_cut, client_eof, addons,
+                        responder, early_ok, resp_feats, kinds)
+    finally:
+        if st:
+            opts.update(stream_large_bodies=None, store_streamed_bodies=False)
+
+
+def _execute(spec, opts, rng, client_seg, server_seg, schedule, policy, m3, open_plan, max_steps, client_cut, server_cut, client_eof, addons,
+             responder, early_ok, resp_feats, kinds):
+    mode = spec["mode"]
+    reqs = spec["reqs"]
     client = sansio.make_client(mode)
     d = sansio.Driver(
         top_factory(mode),
@@ -127,7 +181,7 @@ def execute(spec, opts, rng, *, client_seg="whole", server_seg="whole", schedule
         rng=rng,
         addons=addons if addons is not None else [ForceHttp()],
         policy=policy,
-        server_factory=lambda drv, conn: peers.H1ServerPeer(responder, rng, server_seg),
+        server_factory=lambda drv, conn: peers.H1ServerPeer(responder, rng, server_seg, early_ok=early_ok),
         schedule=schedule,
         snapshot=sansio.http_snapshot,
         m3=m3,
@@ -177,7 +231,13 @@ def outcome(d, spec):
                 return None
             return {k: v for k, v in m.items()}
 
-        flow_list.append((tuple(rec["hooks"]), _freeze(strip(rec["request"])), _freeze(strip(rec["response"])), rec["error"]))
+        hooks = tuple(rec["hooks"])
+        if spec.get("streaming"):
+            # with a streamed request the origin may answer before the upload has ended: request-side and response-side hooks of
+            # one flow then interleave according to the arrival order of the two directions. Schedule-independent is the order
+            # within each direction.
+            hooks = (tuple(h for h in hooks if h in ("requestheaders", "request", "error")), tuple(h for h in hooks if h in ("responseheaders", "response", "error")))
+        flow_list.append((hooks, _freeze(strip(rec["request"])), _freeze(strip(rec["response"])), rec["error"]))
     up = []
     for conn in d.servers:
         status, msgs, rest = ref.parse_requests(bytes(d.out[conn]))
